@@ -235,6 +235,12 @@ def check_loader(we, folder, tab, traces, chans, templ, iwc, absent):
                 return f"{what}: return_info=False returned a tuple"
         if not (np.asarray(w).shape == traces[sel].shape and np.array_equal(np.asarray(w), traces[sel], equal_nan=True)):
             return f"{what}: waveforms are not rows {sel[:5].tolist()}.. of the traces file"
+        # the caller post-processes what it was given, in place (baseline removal, nan_to_num): that is the caller's copy
+        for arr in ((w, ch) if kw.get("return_info", True) else (w,)):
+            try:
+                arr[...] = 7
+            except (ValueError, TypeError):
+                pass
         return ""
 
     few = uniq[::-1][:3]
@@ -268,6 +274,14 @@ def check_loader(we, folder, tab, traces, chans, templ, iwc, absent):
             and np.array_equal(np.asarray(wl.traces), traces, equal_nan=True)):
         return "WaveformsLoader.templates / .channels / .traces are not the saved arrays"
     repr(wl)
+    # what the calls above did to the arrays they were handed must not have reached the saved files, nor what a loader returns
+    p = Path(folder)
+    if not (np.array_equal(np.load(p / "waveforms.traces.npy"), traces, equal_nan=True)
+            and np.array_equal(np.load(p / "waveforms.channels.npz")["channels"], chans)):
+        return "a caller writing into the arrays load_waveforms returned changed the saved files"
+    w2 = we.WaveformsLoader(folder).load_waveforms(return_info=False)
+    if not np.array_equal(np.asarray(w2), traces, equal_nan=True):
+        return "load_waveforms() on a new loader does not return the traces file after a caller wrote into earlier results"
     return ""
 
 
